@@ -18,6 +18,8 @@ structure DrawCfg where
   rw : Rune → Int
   payload : Rune → List Rune → List Nat        -- bytes written for (main, comb) by the encodeRune loop (tscreen.go:922-929)
   hasHide : Bool                                -- ti.HideCursor ≠ ""
+  hasCursorStyle : Nat → Bool := fun _ => false -- t.cursorStyles has an entry for this style (tscreen.go:979)
+  hasCursorRGB : Bool := false                  -- t.cursorRGB ≠ "" (always, after prepareCursorStyles)
   cornerTrick : Bool                            -- ti.AutoMargin ∧ ti.DisableAutoMargin = "" ∧ ti.InsertChar ≠ ""  (tscreen.go:815)
 
 /-- abstract commands emitted by the draw path, in order; `Render.render` turns each into bytes -/
@@ -46,6 +48,8 @@ structure Scr where
   cursorColor : Nat := 0
   clear : Bool := false
   fini : Bool := false
+  cursorShaped : Bool := false   -- a non-default cursor shape has been sent
+  cursorTinted : Bool := false   -- a cursor colour has been sent
 
 namespace Scr
 
@@ -120,7 +124,14 @@ def showCursor (c : DrawCfg) (s : Scr) : Scr × List Cmd :=
   let x := s.cursorx
   let y := s.cursory
   if x < 0 ∨ y < 0 ∨ x ≥ s.cells.w ∨ y ≥ s.cells.h then hideCursor c s
-  else ({ s with cx := x, cy := y }, [.goto x y, .showCursor s.cursorStyle s.cursorColor])
+  else
+    let shaped := if c.hasCursorStyle s.cursorStyle then decide (s.cursorStyle ≠ 0) else s.cursorShaped
+    let tinted :=
+      if c.hasCursorRGB then
+        (if s.cursorColor = colorReset then false else if s.cursorColor / 2^32 % 2 = 1 then true else s.cursorTinted)
+      else s.cursorTinted
+    ({ s with cx := x, cy := y, cursorShaped := shaped, cursorTinted := tinted },
+     [.goto x y, .showCursor s.cursorStyle s.cursorColor])
 
 /-- tscreen.go:1047 draw -/
 def draw (c : DrawCfg) (s : Scr) : Scr × List Cmd :=
